@@ -15,10 +15,12 @@ ASSUMPTIONS = ["reference renderer/parser vf/ref/asm.py", "opcode names are the 
 NSHARDS = {"quick": 32, "thorough": 64}
 BUDGET_S = {"quick": 200, "thorough": 1800}
 MIN_HITS = {
-    'quick': {"exh2": 71442, "grammar": 800, "ws": 1360, "xasm": 79360, "digit_push": 34805, "reject_case": 353, "accept_case": 222, "conditional": 25788},
+    'quick': {"exh2": 71442, "grammar": 843, "ws": 1396, "xasm": 79403, "digit_push": 34805, "reject_case": 356, "accept_case": 219, "conditional": 25809},
     'thorough': {"exh2": 85730, "grammar": 192000, "ws": 325530, "xasm": 277957, "digit_push": 111679, "reject_case": 46023, "accept_case": 69177, "conditional": 127284, "push>=65536": 5353},
 }
-SEPS = [" ", "  ", "     ", " \n ", " \r\n ", " \n\n ", " \t ", "\n ", " \n", " \r\n", "\t "]
+SEPS = [" ", "  ", "     ", " \n ", " \r\n ", " \n\n ", " \t ", "\n ", " \n", " \r\n", "\t ",
+        # Unicode whitespace / line breaks attached to the tokens on either side of the separating blank
+        "\u0085 ", " \u0085", "\u00a0 \u00a0", " \u2028", "\u2029 ", "\u3000 \u3000", " \u2003 ", "\x0b ", " \x0c", "\u1680 \u205f", " \u202f "]
 
 
 def alphabet():
@@ -68,6 +70,13 @@ def cases(ctx):
         toks = [("push", bytes(r.choice([0x10, 0x11, 0x12, 0x15, 0x16, 0x09, 0x99, 0x00, 0x01]) for _ in t_[1])) if t_[0] == "push" and len(t_[1]) <= 2 and r.random() < 0.5 else t_ for t_ in toks]
         toks = [t_ for t_ in toks if not (t_[0] == "op" and t_[1] == 0 and False)]
         yield {"k": "script", "hex": wire.detok(toks).hex(), "tag": "grammar", "ws_seed": r.getrandbits(30)}
+    # single minimal pushes of log-spaced lengths
+    for li, L in enumerate(sorted(set([75, 76, 255, 256, 520, 521] + [v for k_ in range(9, 18) for v in (2**k_ - 1, 2**k_, 2**k_ + 1, 3 * 2 ** (k_ - 1))] + [100000]))):
+        if li % N != S:
+            continue
+        d_ = gen.rbytes(r, L)
+        yield {"k": "script", "hex": wire.minimal_push(d_).hex(), "tag": "grammar", "ws_seed": r.getrandbits(30)}
+        yield {"k": "script", "hex": (b"\x51\x63" + wire.minimal_push(d_) + b"\x68").hex(), "tag": "grammar"}
     # hand-made text
     names = list(asm.NAME2OP) + list(asm.ALIASES)
     for i in range(6000 if t else 12):
